@@ -218,8 +218,14 @@ def full_shape(g):
 
     def j(m):
         return json.dumps(m, sort_keys=True, default=str)
+    def rel(n):
+        try:
+            return sorted(g.get_parents(n)), sorted(g.get_children(n)), sorted(g.get_neighbors(n))
+        except Exception as e:  # noqa: BLE001
+            return '!' + type(e).__name__
     return ([(n.identifier, n.variable_type.value, j(n.meta)) for n in g.get_nodes()],
-            sorted((e.source.identifier, e.destination.identifier, t(e), j(e.meta)) for e in g.get_edges()), j(g.meta))
+            sorted((e.source.identifier, e.destination.identifier, t(e), j(e.meta)) for e in g.get_edges()), j(g.meta),
+            [rel(n) for n in g.get_node_names()])
 
 
 def reroute(g, key):
@@ -329,7 +335,8 @@ def stress(g, key):
         except Exception as e:  # noqa: BLE001
             after = ('!' + type(e).__name__,)
         if after != before:
-            what = 'nodes' if after[0] != before[0] else ('edges' if len(after) > 1 and after[1] != before[1] else 'metadata')
+            what = 'nodes' if after[0] != before[0] else ('edges' if len(after) > 1 and after[1] != before[1] else
+                                                       'graph metadata' if len(after) > 2 and after[2] != before[2] else 'parents / children / neighbours')
             _FAILURES.append(f'a sequence of calls that must leave the graph as it was ({", ".join(done)[:200]}) changed its '
                              f'{what}: before {str(before[1])[:160]} after {str(after[1] if len(after) > 1 else after)[:160]}')
     return done
@@ -483,6 +490,15 @@ def _stress(g, key):
                     done.append('rename-against-time-accepted!')
             except Exception:  # noqa: BLE001
                 done.append('refused-rename-against-time')
+    # 6c. a node is given, through an in-place replace_node, exactly the variable type and metadata it already has
+    if h // 139 % 2 and names:
+        n = names[h // 149 % len(names)]
+        try:
+            node = g.get_node(n)
+            g.replace_node(n, variable_type=node.variable_type, meta=dict(node.meta))
+            done.append('in-place-reassert')
+        except Exception:  # noqa: BLE001
+            done.append('reassert-raised')
     # 7. a refused replace_edge that asked for ANOTHER edge type (the new pair is the reverse of an existing edge): the
     #    original edge must come back as it was
     if len(directed) >= 2 and h // 97 % 2:
